@@ -10,14 +10,17 @@ package main
 //   - builtin.go in sync with builtin.jq (stream "sync")
 
 import (
+	"context"
 	"encoding/json"
 	"fmt"
 	"math"
 	"math/big"
 	"os"
+	"os/exec"
 	"reflect"
 	"sort"
 	"strings"
+	"time"
 	. "verifharness/hlib"
 
 	"github.com/itchyny/gojq"
@@ -28,6 +31,7 @@ func main() {
 	Register("sync", runSync)
 	Register("replay", runReplay)
 	Register("hist", runHist)
+	Register("jqdef", runJqdef)
 	Main()
 }
 
@@ -1074,6 +1078,42 @@ func runC03(c *Ctx) {
 			}
 		}
 	}
+	// sort family with ties: arrays of 13, 20, 64 and 300 elements with many Compare-equal but distinguishable
+	// keys (1, 1.0, the literal 1; equal objects in different number representations): stability matters from
+	// 13 elements on (Go's unstable sort is an insertion sort below that)
+	if len(only) == 0 || only["_sort_by"] {
+		sizes := []int{13, 20, 64, 300}
+		ones := []any{1, 1.0, lit("1"), big.NewInt(1), lit("1.0")}
+		for _, n := range sizes {
+			for pat := 0; pat < 3; pat++ {
+				vs := make([]any, n)
+				ks := make([]any, n)
+				eqs := make([]any, n)
+				for i := 0; i < n; i++ {
+					vs[i] = arr("v", i)
+					var k any
+					switch pat {
+					case 0: // three key classes, each in several representations
+						k = []any{ones[rng.Intn(len(ones))], 2, "a"}[rng.Intn(3)]
+					case 1: // all keys equal
+						k = ones[i%len(ones)]
+					default: // descending classes with ties, objects as keys
+						k = obj("k", []any{ones[rng.Intn(len(ones))], 0, -1}[(n-i)*3/(n+1)])
+					}
+					ks[i] = arr(k)
+					eqs[i] = []any{k, obj("a", k)}[rng.Intn(2)]
+				}
+				for _, nm := range []string{"_sort_by", "_group_by", "_unique_by", "_min_by", "_max_by"} {
+					fn := tab[nm]
+					r.call(&native{name: nm, arity: 1, iter: fn.Iter, code: compileFor(nm, 1)}, vs, []any{ks})
+				}
+				for _, nm := range []string{"sort", "unique", "min", "max"} {
+					fn := tab[nm]
+					r.call(&native{name: nm, arity: 0, iter: fn.Iter, code: compileFor(nm, 0)}, eqs, nil)
+				}
+			}
+		}
+	}
 	c.Stats["calls"] = r.calls
 	c.Stats["rep_variant_calls"] = r.repRuns
 	c.Stats["panics"] = r.panics
@@ -1458,4 +1498,342 @@ func replayHist(c *Ctx, text string) {
 	bad := 0
 	histCase(c, q, in, calls, &bad)
 	c.Stats["history_dependent"] = bad
+}
+
+// ---------------------------------------------------------------------------------------------
+// jqdef: jq-defined builtins with numeric parameters at fractional, negative, zero, huge and NaN counts,
+// against their documented behaviour written here independently of builtin.jq, each under a deadline and an
+// output cap (non-termination = failing input); plus a cross-check of jq-defined builtins against jq 1.6
+// where the two agree by documentation.
+
+type jqOut struct {
+	vals    []any
+	err     bool
+	timeout bool
+}
+
+func jqRun(src string, in any, vars []string, vals []any) jqOut {
+	q, err := gojq.Parse(src)
+	if err != nil {
+		return jqOut{err: true}
+	}
+	code, err := gojq.Compile(q, gojq.WithVariables(vars))
+	if err != nil {
+		return jqOut{err: true}
+	}
+	ctx, cancel := context.WithTimeout(context.Background(), 300*time.Millisecond)
+	defer cancel()
+	it := code.RunWithContext(ctx, in, vals...)
+	var o jqOut
+	for i := 0; i < 2000; i++ {
+		v, ok := it.Next()
+		if !ok {
+			return o
+		}
+		if e, ok := v.(error); ok {
+			if ctx.Err() != nil || e == context.DeadlineExceeded {
+				o.timeout = true
+			} else {
+				o.err = true
+			}
+			return o
+		}
+		o.vals = append(o.vals, v)
+	}
+	o.timeout = true
+	return o
+}
+
+func jqShow(o jqOut) string {
+	var sb strings.Builder
+	sb.WriteString("[")
+	for i, v := range o.vals {
+		if i > 0 {
+			sb.WriteString(",")
+		}
+		if i >= 12 {
+			sb.WriteString("...")
+			break
+		}
+		b, _ := gojq.Marshal(v)
+		sb.Write(b)
+	}
+	sb.WriteString("]")
+	if o.err {
+		sb.WriteString(" then error")
+	}
+	if o.timeout {
+		sb.WriteString(" then NOT TERMINATED (deadline / 2000 outputs)")
+	}
+	return sb.String()
+}
+
+func ints(lo, hi int) []any {
+	var xs []any
+	for i := lo; i < hi; i++ {
+		xs = append(xs, i)
+	}
+	return xs
+}
+
+func numF(v any) (float64, bool) {
+	if n, ok := v.(json.Number); ok {
+		v = gojq.VerifParseNumber(n)
+	}
+	switch x := v.(type) {
+	case int:
+		return float64(x), true
+	case float64:
+		return x, true
+	case *big.Int:
+		f, _ := new(big.Float).SetInt(x).Float64()
+		return f, true
+	}
+	return 0, false
+}
+
+func sameVals(a, b []any) bool {
+	if len(a) != len(b) {
+		return false
+	}
+	for i := range a {
+		var x, y strings.Builder
+		canon(&x, a[i])
+		canon(&y, b[i])
+		if x.String() != y.String() {
+			return false
+		}
+	}
+	return true
+}
+
+func runJqdef(c *Ctx) {
+	counts := []any{-1, -0.5, 0, 0.5, 1, 2, 2.5, lit("2.5"), 9.5, 10, 11, 1e300, math.Inf(1), math.NaN(), bigs("9223372036854775808"), math.Copysign(0, -1), lit("3"), 3.0000001}
+	n, bad := 0, 0
+	fail := func(q string, par any, got jqOut, want string) {
+		bad++
+		if bad <= 12 {
+			c.Violation("jqdef: (jq %s) with $n = %s :: gives %s, documented: %s", q, SexpVal(par), jqShow(got), want)
+		}
+	}
+	ceilCount := func(f float64, avail int) int { // how many outputs "up to n" means
+		if f >= float64(avail) {
+			return avail
+		}
+		return int(math.Ceil(f))
+	}
+	for _, par := range counts {
+		f, _ := numF(par)
+		neg := f < 0 || math.IsNaN(f)
+		// limit(n; g): n < 0 (or NaN, which sorts below every number) an error, otherwise the first ceil(n) outputs
+		for _, g := range []struct {
+			src   string
+			avail int
+			all   []any
+		}{{"range(10)", 10, ints(0, 10)}, {"repeat(7)", 1 << 30, nil}, {"empty", 0, nil}, {"(1,2,error)", 2, []any{1, 2}}} {
+			q := "[limit($n; " + g.src + ")] | length as $l | if $l > 50 then \"many\" else . end"
+			got := jqRun("limit($n; "+g.src+")", nil, []string{"$n"}, []any{par})
+			n++
+			_ = q
+			switch {
+			case neg:
+				if !got.err || got.timeout || len(got.vals) != 0 {
+					fail("limit($n; "+g.src+")", par, got, "an error (negative count)")
+				}
+			case f == 0:
+				if got.err || got.timeout || len(got.vals) != 0 {
+					fail("limit($n; "+g.src+")", par, got, "no output")
+				}
+			case g.all != nil || g.avail == 0:
+				k := ceilCount(f, g.avail)
+				wantErr := g.src == "(1,2,error)" && f > 2
+				if got.timeout || len(got.vals) != k || got.err != wantErr || (g.all != nil && !sameVals(got.vals, g.all[:k])) {
+					fail("limit($n; "+g.src+")", par, got, fmt.Sprintf("the first %d outputs", k))
+				}
+			default: // infinite generator: only a finite count can be checked
+				if f <= 1000 {
+					k := int(math.Ceil(f))
+					if got.timeout || got.err || len(got.vals) != k {
+						fail("limit($n; "+g.src+")", par, got, fmt.Sprintf("%d outputs", k))
+					}
+				}
+			}
+		}
+		// first(limit), nth, skip on range(10): integers exactly; fractional: a value between the two neighbours
+		for _, q := range []string{"nth($n; range(10))", "[skip($n; range(10))]", "[range($n)]", "[range(1; $n)]", "[range(0; 3; $n)]", "[range(3; 0; $n)]",
+			"[0,1] | [combinations($n)] | length", "[limit($n; 1, 2, 3)] | length", "[.[] | first(limit($n; repeat(.)))]"} {
+			in := any(arr(5, 6))
+			got := jqRun(q, in, []string{"$n"}, []any{par})
+			n++
+			if got.timeout {
+				if (strings.HasPrefix(q, "[range(") && (math.IsInf(f, 1) || f > 1e6)) || (strings.Contains(q, "combinations") && f > 12) {
+					continue // a documented huge enumeration
+				}
+				fail(q, par, got, "termination")
+				continue
+			}
+			isInt := f == math.Trunc(f) && !math.IsInf(f, 0)
+			switch q {
+			case "nth($n; range(10))":
+				switch {
+				case neg:
+					if !got.err {
+						fail(q, par, got, "an error (negative index)")
+					}
+				case isInt && f < 10:
+					if got.err || len(got.vals) != 1 || !sameVals(got.vals, []any{int(f)}) {
+						fail(q, par, got, fmt.Sprintf("%d", int(f)))
+					}
+				case f >= 10:
+					if got.err || len(got.vals) != 0 {
+						fail(q, par, got, "no output")
+					}
+				default:
+					if got.err || len(got.vals) != 1 {
+						fail(q, par, got, "one of the two neighbouring outputs")
+					} else if g, ok := numF(got.vals[0]); !ok || g < math.Floor(f) || g > math.Ceil(f) {
+						fail(q, par, got, "one of the two neighbouring outputs")
+					}
+				}
+			case "[skip($n; range(10))]":
+				switch {
+				case neg:
+					if !got.err {
+						fail(q, par, got, "an error (negative count)")
+					}
+				case isInt:
+					k := int(math.Min(f, 10))
+					if got.err || len(got.vals) != 1 || !sameVals(got.vals, []any{arr(ints(k, 10)...)}) {
+						fail(q, par, got, fmt.Sprintf("range(%d;10)", k))
+					}
+				}
+			case "[range($n)]", "[range(1; $n)]":
+				lo := 0
+				if q == "[range(1; $n)]" {
+					lo = 1
+				}
+				if math.IsNaN(f) || f > 1e6 {
+					continue
+				}
+				hi := int(math.Ceil(f))
+				if hi < lo {
+					hi = lo
+				}
+				if got.err || len(got.vals) != 1 || !sameVals(got.vals, []any{arr(ints(lo, hi)...)}) {
+					fail(q, par, got, fmt.Sprintf("the integers %d .. below $n", lo))
+				}
+			case "[range(0; 3; $n)]", "[range(3; 0; $n)]":
+				// from, from+by, ...: below upto for by > 0, above for by < 0, nothing for by = 0 or NaN
+				from, upto := 0.0, 3.0
+				if q == "[range(3; 0; $n)]" {
+					from, upto = 3.0, 0.0
+				}
+				var want []any
+				if !math.IsNaN(f) && f != 0 {
+					for x, i := from, 0; (f > 0 && x < upto || f < 0 && x > upto) && i < 100; x, i = x+f, i+1 {
+						want = append(want, x)
+					}
+				}
+				if got.err || len(got.vals) != 1 {
+					fail(q, par, got, "one array")
+					continue
+				}
+				gl, _ := got.vals[0].([]any)
+				ok := len(gl) == len(want)
+				for i := 0; ok && i < len(want); i++ {
+					g, isn := numF(gl[i])
+					ok = isn && g == want[i].(float64)
+				}
+				if !ok {
+					fail(q, par, got, fmt.Sprintf("%d values from %v by $n", len(want), from))
+				}
+			case "[0,1] | [combinations($n)] | length":
+				switch {
+				case neg:
+					if !got.err {
+						fail(q, par, got, "an error (negative count)")
+					}
+				case f <= 12:
+					k := 1 << int(math.Ceil(f))
+					if got.err || len(got.vals) != 1 || !sameVals(got.vals, []any{k}) {
+						fail(q, par, got, fmt.Sprintf("%d", k))
+					}
+				}
+			case "[limit($n; 1, 2, 3)] | length":
+				if neg {
+					if !got.err {
+						fail(q, par, got, "an error")
+					}
+				} else if k := ceilCount(f, 3); got.err || !sameVals(got.vals, []any{k}) {
+					fail(q, par, got, fmt.Sprintf("%d", k))
+				}
+			case "[.[] | first(limit($n; repeat(.)))]":
+				if neg {
+					if !got.err {
+						fail(q, par, got, "an error")
+					}
+				} else if f == 0 {
+					if got.err || !sameVals(got.vals, []any{arr()}) {
+						fail(q, par, got, "[]")
+					}
+				} else if got.err || !sameVals(got.vals, []any{arr(5, 6)}) {
+					fail(q, par, got, "[5,6]")
+				}
+			}
+		}
+	}
+	// cross-check with jq 1.6 on definitions both document alike
+	cross := []struct{ q, in string }{
+		{`[limit(3; range(10))]`, `null`}, {`[limit(1; 1, 2)]`, `null`}, {`[first(range(5; 10))]`, `null`}, {`[nth(3; range(10))]`, `null`},
+		{`[range(5)]`, `null`}, {`[range(2; 5)]`, `null`}, {`[range(0; 10; 3)]`, `null`}, {`[range(5; 0; -2)]`, `null`}, {`[range(0; 1; 0.25)]`, `null`},
+		{`[.[] | until(. >= 100; . * 2)]`, `[1, 3]`}, {`[1 | while(. < 40; . * 3)]`, `null`}, {`[limit(4; 1 | repeat(. * 2))]`, `null`},
+		{`[combinations]`, `[[1,2],[3,4]]`}, {`[combinations(2)]`, `[0,1]`}, {`to_entries`, `{"b":1,"a":[2]}`}, {`from_entries`, `[{"key":"a","value":1},{"name":"b","Value":2},{"k":1}]`},
+		{`with_entries(.value |= tostring)`, `{"a":1,"b":null}`}, {`walk(if type == "number" then . + 1 else . end)`, `[1,{"a":[2,"x"]},null]`},
+		{`[paths]`, `{"a":[1,{"b":2}]}`}, {`[paths(type == "number")]`, `{"a":[1,{"b":2}]}`}, {`del(.a, .b[0])`, `{"a":1,"b":[1,2],"c":3}`},
+		{`map(. * 2)`, `[1,2.5]`}, {`map_values(. + 1)`, `{"a":1,"b":2}`}, {`[.[] | select(. > 1)]`, `[0,1,2,3]`}, {`[recurse]`, `[1,[2]]`},
+		{`[recurse(.[]?; type == "array")]`, `[1,[2]]`}, {`any, all`, `[true,false]`}, {`[any(.[]; . > 2), all(.[]; . > 0)]`, `[1,2,3]`}, {`flatten(1)`, `[1,[2,[3]]]`},
+		{`[first, last, nth(1)]`, `[5,6,7]`}, {`[isempty(empty), isempty(1, error)]`, `null`}, {`[.[] | in({"a":1})]`, `["a","b"]`}, {`inside([1,2,3])`, `[1,2]`},
+		{`[tostream]`, `{"a":[1,2]}`}, {`fromstream(tostream)`, `{"a":[1,{"b":2}]}`}, {`[truncate_stream(1; tostream)]`, `{"a":[1,2]}`},
+		{`[splits(", *")]`, `"a, b,c"`}, {`sub("(?<x>b)"; "[\(.x)]")`, `"abc"`}, {`[scan("[a-c]")]`, `"abcd"`}, {`ascii_downcase, ascii_upcase`, `"aBc"`},
+		{`min_by(.a), max_by(.a)`, `[{"a":2},{"a":1},{"a":2,"b":0}]`}, {`group_by(.a)`, `[{"a":2},{"a":1},{"a":2,"b":0}]`}, {`unique_by(.a)`, `[{"a":2},{"a":1},{"a":2,"b":0}]`},
+		{`sort_by(.a)`, `[{"a":2},{"a":1},{"a":2,"b":0}]`}, {`add`, `[[1],[2]]`}, {`[.[] | tojson | fromjson]`, `[1,"a",[null]]`}, {`todate`, `1425599621`}, {`fromdate`, `"2015-03-05T23:53:41Z"`},
+		{`INDEX(.id)`, `[{"id":1},{"id":2}]`}, {`[IN(.[]; 2, 3)]`, `[1,2]`}, {`[limit(0; 1, 2)]`, `null`},
+	}
+	crossed, crossBad := 0, 0
+	if _, err := os.Stat("/usr/bin/jq"); err == nil {
+		for _, t := range cross {
+			var in any
+			d := json.NewDecoder(strings.NewReader(t.in))
+			d.UseNumber()
+			if err := d.Decode(&in); err != nil {
+				continue
+			}
+			got := jqRun(t.q, in, nil, nil)
+			n++
+			cmd := exec.Command("/usr/bin/jq", "-c", t.q)
+			cmd.Stdin = strings.NewReader(t.in)
+			out, err := cmd.Output()
+			var want []any
+			wd := json.NewDecoder(strings.NewReader(string(out)))
+			wd.UseNumber()
+			for {
+				var w any
+				if wd.Decode(&w) != nil {
+					break
+				}
+				want = append(want, w)
+			}
+			crossed++
+			if got.timeout || got.err != (err != nil) || !sameVals(got.vals, want) {
+				crossBad++
+				if crossBad <= 8 {
+					c.Violation("jqdef: (jq %s) on %s :: gives %s, jq 1.6 gives %s", t.q, t.in, jqShow(got), strings.TrimSpace(string(out)))
+				}
+			}
+		}
+	}
+	c.Stats["calls"] = n
+	c.Stats["documented_mismatches"] = bad
+	c.Stats["jq16_crosschecked"] = crossed
+	c.Stats["jq16_mismatches"] = crossBad
 }
